@@ -201,6 +201,49 @@ class C26(Property):
                 n, ";".join(f"{bits(z.real)},{bits(z.imag)}" for z in C.reshape(-1)), list_s(v, bits), list_s(M, bits), bits(wl),
                 list_s(ts, bits), i0), check)
 
+        # D. eager ensemble assembly, traced: the per-orientation kernel is replaced by a tagging kernel inside this process, the
+        #    real loop of BlochwaveEnsemble._calculate_diffraction_intensities runs unchanged
+        import types
+
+        import abtem.bloch.dynamical as dyn
+
+        for _ in range(ctx.n(3, 30)):
+            case = dict(kind="ens", crystal=rng.choice(["Si", "Cu", "Fe"]), g_max=1.0, sigma=0.0, energy=200e3, sg_max=rng.choice([0.03, 0.06]),
+                        rot=[0.0, 0.0], rx=[round(rng.uniform(-0.04, 0.04), 4) for _ in range(rng.randint(1, 3))],
+                        ry=[round(rng.uniform(-0.04, 0.04), 4) for _ in range(rng.randint(1, 2))], nt=rng.randint(1, 2))
+            ens = bloch(case).rotate("x", np.array(case["rx"]), "y", np.array(case["ry"]))
+            mask = ens.get_ensemble_hkl_mask()
+            width = int(mask.sum())
+            rows, counter = [], [0]
+
+            def fake(self, thicknesses, return_complex=False, lazy=True, rows=rows, counter=counter, mask=mask):
+                m = counter[0]
+                counter[0] += 1
+                n = len(self)
+                arr = np.array([[(m + 1) * 4096 + t * 1024 + k for k in range(n)] for t in range(len(thicknesses))], dtype=np.float32)
+                pos = np.where(self.hkl_mask[mask])[0].tolist()
+                for t in range(len(thicknesses)):
+                    rows.append((pos, [int(x) for x in arr[t]]))
+                return types.SimpleNamespace(array=arr)
+
+            orig = dyn.BlochWaves.calculate_diffraction_patterns
+            dyn.BlochWaves.calculate_diffraction_patterns = fake
+            try:
+                out = ens._calculate_diffraction_intensities(thicknesses=np.arange(case["nt"], dtype=np.float32), return_complex=False, pbar=False)
+            finally:
+                dyn.BlochWaves.calculate_diffraction_patterns = orig
+            impl = [[int(x) for x in r] for r in np.asarray(out).reshape(-1, width)]
+
+            def check(out_line, case=case, impl=impl):
+                t = out_line.split()
+                model = [] if t[1] == "~" else [[] if r == "_" else [int(x) for x in r.split(",")] for r in t[1].split(";")]
+                ctx.agree("BlochwaveEnsemble eager assembly (traced)", case, model, impl)
+                ctx.count(f"ens:members={len(case['rx']) * len(case['ry'])}")
+                ctx.case(case, nontrivial=len(case["rx"]) * len(case["ry"]) > 1)
+
+            ask("ens {} {} {}".format(width, ";".join(list_s(p) for p, _ in rows) if rows else "~",
+                                      ";".join(list_s(v) for _, v in rows) if rows else "~"), check)
+
         bad = ["ravel 3,3 0,0,0", "smatrix 3,3,3 0,0,0 1,0 0,0,0 1 1 1", "dyn 2 1,1 1,1 1,1 1 1 5", "nonsense"]
         outs = LeanDriver(self.drive_file).query(lines + bad)
         for fn, out in zip(todo, outs):
